@@ -40,7 +40,7 @@ def clsTable : Kind → Op → Option (List Clause)
   | .pts, .intersects => some [⟨[], .run .ptsAny⟩]
   | .surf, .intersects => some [⟨[.isKind .surf], .run .surfSurfIntersects⟩, ⟨[.isKind .foot], .run .surfFootIntersects⟩, ⟨[], .super⟩]
   | .vol, .difference => some [⟨[.lzy], .super⟩, ⟨[.isKind .vol], .run .volSub⟩, ⟨[.isKind .foot], .run .volFootSub⟩, ⟨[], .super⟩]
-  | .vol, .intersect => some [⟨[.lzy], .super⟩, ⟨[.isKind .vol], .run .volAnd⟩, ⟨[.isKind .foot], .run .volFootAnd⟩, ⟨[.isKind .poly], .run (.volSlice .otherZ .zero)⟩, ⟨[.isKind .path], .run .volPathClip⟩, ⟨[.isKind .line], .run .volLineClip⟩, ⟨[], .super⟩]
+  | .vol, .intersect => some [⟨[.lzy], .super⟩, ⟨[.isKind .vol], .run .volAnd⟩, ⟨[.isKind .foot], .run .volFootAnd⟩, ⟨[.isKind .poly], .run (.volSlice .otherZ .otherZ)⟩, ⟨[.isKind .path], .run .volPathClip⟩, ⟨[.isKind .line], .run .volLineClip⟩, ⟨[], .super⟩]
   | .vol, .intersects => some [⟨[.isKind .vol], .run .volVolIntersects⟩, ⟨[.isKind .surf], .run .volSurfIntersects⟩, ⟨[.isKind .foot], .run .volFootIntersects⟩, ⟨[], .super⟩]
   | .vol, .union => some [⟨[.lzy], .super⟩, ⟨[.isKind .vol], .run .volOr⟩, ⟨[], .super⟩]
   | _, _ => none
